@@ -15,6 +15,7 @@ import (
 	"github.com/EliCDavis/polyform/refutil"
 
 	gsync "sync"
+	"sync/atomic"
 )
 
 type Instance struct {
@@ -38,12 +39,13 @@ func New(typeFactory *refutil.TypeFactory) *Instance {
 	}
 }
 func (i *Instance) ModelVersion() uint32 {
-	return i.movelVersion
+	// Read by the websocket hub on its own goroutine while requests edit the
+	// graph.
+	return atomic.LoadUint32(&i.movelVersion)
 }
 
 func (i *Instance) incModelVersion() {
-	// TODO: Make thread safe
-	i.movelVersion++
+	atomic.AddUint32(&i.movelVersion, 1)
 }
 
 func (i *Instance) NodeInstanceSchema(node nodes.Node) schema.NodeInstance {
